@@ -82,11 +82,42 @@ type StreamNet struct {
 	open    map[string][]*PipeEnd
 	dials   atomic.Int64
 	refused atomic.Int64
+	// gates: addresses whose connection attempts are kept waiting until Release
+	gates   map[string]chan struct{}
+	waiting map[string]int64
 }
 
 // NewStreamNet builds an empty stream network.
 func NewStreamNet() *StreamNet {
-	return &StreamNet{table: map[string]*StreamRemote{}, open: map[string][]*PipeEnd{}}
+	return &StreamNet{table: map[string]*StreamRemote{}, open: map[string][]*PipeEnd{}, gates: map[string]chan struct{}{}, waiting: map[string]int64{}}
+}
+
+// Hold keeps every connection attempt to addr waiting (in the dial function)
+// until Release; who answers is decided by the table at release time.
+func (n *StreamNet) Hold(addr string) {
+	n.mu.Lock()
+	if n.gates[addr] == nil {
+		n.gates[addr] = make(chan struct{})
+	}
+	n.mu.Unlock()
+}
+
+// Held returns how many connection attempts to addr have been kept waiting so far.
+func (n *StreamNet) Held(addr string) int64 {
+	n.mu.Lock()
+	defer n.mu.Unlock()
+	return n.waiting[addr]
+}
+
+// Release ends a Hold.
+func (n *StreamNet) Release(addr string) {
+	n.mu.Lock()
+	g := n.gates[addr]
+	delete(n.gates, addr)
+	n.mu.Unlock()
+	if g != nil {
+		close(g)
+	}
 }
 
 // Dials returns the number of connection attempts so far.
@@ -116,6 +147,16 @@ func (n *StreamNet) DialFunc(home string) conn.AddrDialFunc {
 	return func(ctx context.Context, addr string) (io.ReadWriteCloser, net.Addr, error) {
 		n.dials.Add(1)
 		n.mu.Lock()
+		if g := n.gates[addr]; g != nil {
+			n.waiting[addr]++
+			n.mu.Unlock()
+			select {
+			case <-g:
+			case <-ctx.Done():
+				return nil, nil, ctx.Err()
+			}
+			n.mu.Lock()
+		}
 		r := n.table[addr]
 		var a, b *PipeEnd
 		if r != nil {
@@ -150,6 +191,18 @@ func StartStreamRemote(ctx context.Context, le *logrus.Entry, home string, id *k
 	rec := NewRecorder(nil)
 	rec.pump = true
 	tpt, err := conn.NewTransport(ctx, le, id.Priv, rec, ConnOpts(), 0, Addr(home), nil)
+	if err != nil {
+		return nil, err
+	}
+	return &StreamRemote{ID: id, Tpt: tpt, Rec: rec, ctx: ctx}, nil
+}
+
+// StartStreamDialer builds a bare real conn transport (no controller) that can
+// dial through the StreamNet; home is its own address as shown to the listeners.
+func StartStreamDialer(ctx context.Context, le *logrus.Entry, n *StreamNet, home string, id *keys.Identity) (*StreamRemote, error) {
+	rec := NewRecorder(nil)
+	rec.pump = true
+	tpt, err := conn.NewTransport(ctx, le, id.Priv, rec, ConnOpts(), 0, Addr(home), n.DialFunc(home))
 	if err != nil {
 		return nil, err
 	}
